@@ -129,7 +129,7 @@ func hashSource(name, label string, newH func() hash.Hash, pre func([]byte) []by
 func sources(thorough bool) []source {
 	s := []source{
 		{"bytes", "sign-bytes", nil, func(sc *sr25519.SigningContext, msg []byte) *sr25519.SigningTranscript {
-			return sc.NewTranscriptBytes(msg)
+			return sc.NewTranscriptBytes(lendAs("SigningContext.NewTranscriptBytes", msg))
 		}},
 		hashSource("sha256", "sign-256", sha256.New, func(m []byte) []byte { d := sha256.Sum256(m); return d[:] }),
 		hashSource("sha512", "sign-512", sha512.New, func(m []byte) []byte { d := sha512.Sum512(m); return d[:] }),
@@ -189,6 +189,7 @@ type env struct {
 	ctxData  []byte
 	msgData  []byte
 	requires []req
+	probeSig []byte // a reference signature (for the caller-memory probe)
 }
 
 func (e *env) ctxOf(n int) []byte { return append([]byte{}, e.ctxData[:n]...) }
@@ -282,6 +283,8 @@ func run(c *mc.Ctx) {
 	e.batchChecks()
 	e.reuseChecks()
 	e.themeChecks()
+	e.probeSig = refsr.Sign(e.keys[0].rsk, e.keys[0].rpk, refsr.TranscriptBytes([]byte("probe"), []byte("probe")), make([]byte, 32)).Sig
+	e.reportModified()
 	for _, r := range e.requires {
 		c.Require(r.class, r.min)
 	}
@@ -297,7 +300,7 @@ type req struct {
 func (e *env) buildRealKeys() {
 	defer func() { _ = recover() }()
 	for _, k := range e.keys {
-		msk, err := sr25519.NewMiniSecretKeyFromBytes(k.mini)
+		msk, err := sr25519.NewMiniSecretKeyFromBytes(lendAs("MiniSecretKey.UnmarshalBinary", k.mini))
 		if err != nil {
 			return
 		}
@@ -326,7 +329,7 @@ func (e *env) keyChecks() {
 		w.Eval("keys", !bytes.Equal(k.mini, make([]byte, 32)))
 		counted = true
 		cas := map[string]string{"mini": mc.Hex(k.mini), "expansion": k.name}
-		msk, err := sr25519.NewMiniSecretKeyFromBytes(k.mini)
+		msk, err := sr25519.NewMiniSecretKeyFromBytes(lendAs("MiniSecretKey.UnmarshalBinary", k.mini))
 		if err != nil {
 			w.Fail("NewMiniSecretKeyFromBytes", "rejects a 32-byte mini secret key", cas)
 			return
@@ -359,13 +362,13 @@ func (e *env) keyChecks() {
 			w.Fail("KeyPair.MarshalBinary", fmt.Sprintf("key pair %x, reference %x", kpb, k.rsk.KeypairBytes()), cas)
 		}
 		// round trips through the decoders
-		if sk2, err := sr25519.NewSecretKeyFromBytes(skb); err != nil || !sk2.Equal(sk) || !bytes.Equal(mustMarshal(sk2), skb) {
+		if sk2, err := sr25519.NewSecretKeyFromBytes(lendAs("SecretKey.UnmarshalBinary", skb)); err != nil || !sk2.Equal(sk) || !bytes.Equal(mustMarshal(sk2), skb) {
 			w.Fail("SecretKey.UnmarshalBinary/roundtrip", fmt.Sprintf("err=%v", err), cas)
 		}
-		if pk2, err := sr25519.NewPublicKeyFromBytes(pkb); err != nil || !pk2.Equal(pk) || !bytes.Equal(mustMarshal(pk2), pkb) {
+		if pk2, err := sr25519.NewPublicKeyFromBytes(lendAs("PublicKey.UnmarshalBinary", pkb)); err != nil || !pk2.Equal(pk) || !bytes.Equal(mustMarshal(pk2), pkb) {
 			w.Fail("PublicKey.UnmarshalBinary/roundtrip", fmt.Sprintf("err=%v", err), cas)
 		}
-		if kp2, err := sr25519.NewKeyPairFromBytes(kpb); err != nil || !bytes.Equal(mustMarshal(kp2), kpb) || !kp2.PublicKey().Equal(pk) || !kp2.SecretKey().Equal(sk) {
+		if kp2, err := sr25519.NewKeyPairFromBytes(lendAs("KeyPair.UnmarshalBinary", kpb)); err != nil || !bytes.Equal(mustMarshal(kp2), kpb) || !kp2.PublicKey().Equal(pk) || !kp2.SecretKey().Equal(sk) {
 			w.Fail("KeyPair.UnmarshalBinary/roundtrip", fmt.Sprintf("err=%v", err), cas)
 		}
 		// Ed25519-style expansion must agree with importing the expanded Ed25519 key
@@ -374,17 +377,17 @@ func (e *env) keyChecks() {
 			h[0] &= 248
 			h[31] &= 63
 			h[31] |= 64
-			sk3, err := sr25519.NewSecretKeyFromEd25519Bytes(h[:])
+			sk3, err := sr25519.NewSecretKeyFromEd25519Bytes(lendAs("NewSecretKeyFromEd25519Bytes", h[:]))
 			if err != nil || !bytes.Equal(mustMarshal(sk3), k.rsk.Bytes()) {
 				w.Fail("NewSecretKeyFromEd25519Bytes", fmt.Sprintf("import of the clamped SHA-512 expansion differs from the reference (err=%v)", err), cas)
 			}
 		}
 		// a different key never compares equal
 		other := e.keys[(i+1)%len(e.keys)]
-		if osk, err := sr25519.NewSecretKeyFromBytes(other.rsk.Bytes()); err != nil || osk.Equal(sk) {
+		if osk, err := sr25519.NewSecretKeyFromBytes(lendAs("SecretKey.UnmarshalBinary", other.rsk.Bytes())); err != nil || osk.Equal(sk) {
 			w.Fail("SecretKey.Equal", "distinct secret keys compare equal (or reference key bytes rejected)", cas)
 		}
-		if opk, err := sr25519.NewPublicKeyFromBytes(other.rpk); err != nil || opk.Equal(pk) {
+		if opk, err := sr25519.NewPublicKeyFromBytes(lendAs("PublicKey.UnmarshalBinary", other.rpk)); err != nil || opk.Equal(pk) {
 			w.Fail("PublicKey.Equal", "distinct public keys compare equal (or reference key bytes rejected)", cas)
 		}
 	})
@@ -479,7 +482,7 @@ func clipStr(s string, n int) string {
 func (e *env) signOne(w *mc.W, sc signCase, keyIdx int, rejections bool) {
 	k := sc.key
 	cas := map[string]string{"case": sc.String()}
-	ctx := sr25519.NewSigningContext(sc.ctx)
+	ctx := sr25519.NewSigningContext(lendAs("NewSigningContext", sc.ctx))
 	ctxBefore := strobeSnapshot(sr25519.VerifContextTranscript(ctx))
 	if !sameStrobe(sr25519.VerifContextTranscript(ctx), refsr.SigningContext(sc.ctx)) {
 		w.Fail("SigningContext/transcript", "Merlin state of NewSigningContext differs from SigningContext::new of the reference | "+sc.String(), cas)
@@ -521,7 +524,7 @@ func (e *env) signOne(w *mc.W, sc signCase, keyIdx int, rejections bool) {
 		w.Fail("KeyPair.Sign/determinism", "two signatures with the same entropy differ | "+sc.String(), cas)
 	}
 	// round trip through the decoder and verification on a freshly built transcript and key
-	sig2, err := sr25519.NewSignatureFromBytes(sb)
+	sig2, err := sr25519.NewSignatureFromBytes(lendAs("Signature.UnmarshalBinary", sb))
 	if err != nil {
 		w.Fail("Signature.UnmarshalBinary/own", fmt.Sprintf("produced signature rejected by the decoder: %v | %s", err, sc), cas)
 		return
@@ -529,7 +532,7 @@ func (e *env) signOne(w *mc.W, sc signCase, keyIdx int, rejections bool) {
 	if !bytes.Equal(mustMarshal(sig2), sb) {
 		w.Fail("Signature.MarshalBinary/roundtrip", "marshal(unmarshal(sig)) != sig | "+sc.String(), cas)
 	}
-	pk2, err := sr25519.NewPublicKeyFromBytes(k.rpk)
+	pk2, err := sr25519.NewPublicKeyFromBytes(lendAs("PublicKey.UnmarshalBinary", k.rpk))
 	if err != nil {
 		w.Fail("PublicKey.UnmarshalBinary/own", "reference public key rejected", cas)
 		return
@@ -585,22 +588,22 @@ func (e *env) signOne(w *mc.W, sc signCase, keyIdx int, rejections bool) {
 		return out
 	}
 	for _, c2 := range alt(sc.ctx) {
-		reject("context", fmt.Sprintf("context -> %x", c2), pk2, k.ver, sc.src.mk(sr25519.NewSigningContext(c2), sc.msg), refTranscript(sc.src, c2, sc.msg))
+		reject("context", fmt.Sprintf("context -> %x", c2), pk2, k.ver, sc.src.mk(sr25519.NewSigningContext(lendAs("NewSigningContext", c2)), sc.msg), refTranscript(sc.src, c2, sc.msg))
 	}
 	for _, m2 := range alt(sc.msg) {
-		reject("message", fmt.Sprintf("message -> %x", m2), pk2, k.ver, sc.src.mk(sr25519.NewSigningContext(sc.ctx), m2), refTranscript(sc.src, sc.ctx, m2))
+		reject("message", fmt.Sprintf("message -> %x", m2), pk2, k.ver, sc.src.mk(sr25519.NewSigningContext(lendAs("NewSigningContext", sc.ctx)), m2), refTranscript(sc.src, sc.ctx, m2))
 	}
 	ok := e.keys[(keyIdx+1)%len(e.keys)]
 	reject("key", "public key -> "+ok.name, ok.pk, ok.ver, st2, rt)
 	if sc.src.pre != nil {
 		// the same pre-hash bytes presented as a plain message (label sign-bytes)
 		p := sc.src.pre(sc.msg)
-		reject("source", "pre-hash presented through NewTranscriptBytes", pk2, k.ver, sr25519.NewSigningContext(sc.ctx).NewTranscriptBytes(p), refsr.TranscriptBytes(sc.ctx, p))
+		reject("source", "pre-hash presented through NewTranscriptBytes", pk2, k.ver, sr25519.NewSigningContext(lendAs("NewSigningContext", sc.ctx)).NewTranscriptBytes(lendAs("SigningContext.NewTranscriptBytes", p)), refsr.TranscriptBytes(sc.ctx, p))
 	} else if len(sc.msg) == 32 || len(sc.msg) == 64 {
 		// a 32/64-byte message presented as a digest
 		lbl := map[int]string{32: "sign-256", 64: "sign-512"}[len(sc.msg)]
 		reject("source", "message presented as a digest through NewTranscriptHash", pk2, k.ver,
-			sr25519.NewSigningContext(sc.ctx).NewTranscriptHash(fixedHash(sc.msg)), refsr.TranscriptPrehashed(sc.ctx, lbl, sc.msg))
+			sr25519.NewSigningContext(lendAs("NewSigningContext", sc.ctx)).NewTranscriptHash(fixedHash(sc.msg)), refsr.TranscriptPrehashed(sc.ctx, lbl, sc.msg))
 	}
 	// --- alternative encodings of the same R / s must be rejected ("exactly one byte encoding")
 	rv := ref.FromLE(sb[:32])
@@ -616,7 +619,7 @@ func (e *env) signOne(w *mc.W, sc signCase, keyIdx int, rejections bool) {
 		if k.ver.Verify(rt, mut) {
 			e.c.Broken("reference accepts a non-canonical R")
 		}
-		s3, err := sr25519.NewSignatureFromBytes(mut)
+		s3, err := sr25519.NewSignatureFromBytes(lendAs("Signature.UnmarshalBinary", mut))
 		if err == nil && pk2.Verify(st2, s3) {
 			w.Fail("PublicKey.Verify/noncanonical-R", fmt.Sprintf("signature with %s verifies | %s", name, sc), cas)
 		}
@@ -626,7 +629,7 @@ func (e *env) signOne(w *mc.W, sc signCase, keyIdx int, rejections bool) {
 		mut := append(append([]byte{}, sb[:32]...), ref.LE32(sPlusL)...)
 		mut[63] |= 128
 		w.Eval("reject/s-plus-L", true)
-		if _, err := sr25519.NewSignatureFromBytes(mut); err == nil {
+		if _, err := sr25519.NewSignatureFromBytes(lendAs("Signature.UnmarshalBinary", mut)); err == nil {
 			w.Fail("Signature.UnmarshalBinary/s-plus-L", fmt.Sprintf("signature with s+L accepted by the decoder | %s", sc), cas)
 		}
 	}
@@ -703,12 +706,12 @@ func (e *env) flipChecks() {
 		}
 		// the unflipped signature is what the implementation itself produces (checked in "sign"); here
 		// the flipped inputs go through the public decoders
-		pk, errP := sr25519.NewPublicKeyFromBytes(pkB)
-		sig, errS := sr25519.NewSignatureFromBytes(sigB)
+		pk, errP := sr25519.NewPublicKeyFromBytes(lendAs("PublicKey.UnmarshalBinary", pkB))
+		sig, errS := sr25519.NewSignatureFromBytes(lendAs("Signature.UnmarshalBinary", sigB))
 		if errP != nil || errS != nil {
 			return // rejected at decoding: fine
 		}
-		st := sc.src.mk(sr25519.NewSigningContext(ctx), msg)
+		st := sc.src.mk(sr25519.NewSigningContext(lendAs("NewSigningContext", ctx)), msg)
 		if pk.Verify(st, sig) {
 			w.Fail("PublicKey.Verify/accepts-flip", fmt.Sprintf("signature verifies after flipping %s | %s", what, sc), cas)
 		}
